@@ -119,8 +119,12 @@ theorem askLoop_bounds_first (env : Env α) (hin : ∀ p ∈ env.boundsPts, env.
               apply hin
               have : p ∈ missing env s := by rw [hm]; exact List.mem_cons_self ..
               exact (List.mem_filter.1 this).1
+            have hpd : s.data.contains p = false := by
+              have : p ∈ missing env s := by rw [hm]; exact List.mem_cons_self ..
+              simp only [missing, List.mem_filter, Bool.and_eq_true, Bool.not_eq_eq_eq_not, Bool.not_true] at this
+              exact this.2.1
             obtain ⟨fd, _, _, _, fp, _⟩ := tellPending_frame env p none ht
-            simp only [hpin, if_true] at fp
+            simp only [hpin, hpd, Bool.not_false, Bool.and_self, if_true] at fp
             have hm1 : missing env s1 = m := missing_after env hnd hm fd fp
             obtain ⟨rest, hrest⟩ := ih h2
             refine ⟨rest, ?_⟩
